@@ -99,7 +99,7 @@ class CoverageSaveVisitor(ModelVisitor):
             # TODO: obtain goal from coverpoint and set on cp_scope
             # TODO: obtain comment from coverpoint and set on cp_scope
             self.active_scope_s.append(cg_inst.createCovergroup(
-                cg.typename,
+                cg_name,
                 inst_location,
                 weight, # weight
                 UCIS_OTHER)) # Source type
